@@ -9,7 +9,7 @@ C02_Full == { Lf("M",0,0), Lf("M",0,1), Lf("T",0,0), Lf("X",0,3),
               Lf("brk",1,0), Lf("brk",2,0), Lf("cont",1,0), Lf("cont",2,0), Lf("kc",1,0),
               Lf("ret",5,0), Lf("exit",4,0) }
 C02_Lite == { Lf("M",0,0), Lf("M",0,1) }
-C02_Constructs == {"seq", "and", "or", "not", "grp", "sub", "fn", "eval", "for2", "afor2", "if", "elif", "while", "until", "case"}
+C02_Constructs == {"seq", "and", "or", "not", "grp", "sub", "fn", "eval", "cs", "for2", "afor2", "if", "elif", "while", "until", "case"}
 C02_Cases == { <<1, 1, 0>>, <<2, 2, 0>>, <<2, 3, 1>>, <<2, 3, 2>>, <<3, 5, 1>>, <<3, 5, 2>>, <<2, 0, 0>> }
 C02_Lite1 == { Lf("M",0,1) }
 C02_Constructs3 == {"seq", "and", "not", "grp", "sub", "fn", "eval", "for2", "if", "while", "until", "case"}
@@ -31,4 +31,12 @@ C03N_Full == { Lf("M",0,1), Lf("X",0,3) }
 C03N_Lite == { Lf("M",0,0) }
 C03N_Constructs == {"seq", "and", "or", "not", "grp", "sub", "fn", "eval", "cs", "pipe", "if", "while"}
 C03N_Cases == { <<1, 1, 0>> }
+
+\* ---- C18 (leaks): fault leaves at every position; no exit (the shell must survive to be measured)
+C18_Full == { Lf("f_in",0,0), Lf("f_out",0,0), Lf("f_cmd",0,0), Lf("f_sub",0,0), Lf("f_ro",0,0), Lf("f_tmp",0,0), Lf("f_tmpro",0,0), Lf("f_redirfn",0,0),
+              Lf("ret",5,0), Lf("brk",1,0), Lf("cont",1,0), Lf("M",0,1), Lf("X",0,3), Lf("us",0,0) }
+\* (no `break 2` at depth 1: that is C02's recorded finding F-C02-1 and would end the measured shell)
+C18_Lite == { Lf("M",0,0), Lf("M",0,1) }
+C18_Constructs == {"seq", "and", "or", "not", "grp", "sub", "fn", "eval", "cs", "pipe", "for2", "if", "case"}
+C18_Cases == { <<1, 1, 0>>, <<2, 3, 1>> }
 =============================================================================
